@@ -34,7 +34,7 @@ def offsets(n):
     return out
 
 
-def render(pristine, dirty, hexonly=None):
+def render(pristine, dirty, hexonly=None, ws_append=False):
     """File bytes for a set of dirty regions (canonical order: flips, then truncate, then append)."""
     b = bytearray(pristine)
     offs = offsets(len(b)) if hexonly is None else {k: hexonly[i] for i, k in enumerate(("first", "last", "mid", "b8192", "in8k"))}
@@ -58,7 +58,11 @@ def render(pristine, dirty, hexonly=None):
     if "trunc" in dirty:
         b = b[:-1]
     if "append" in dirty:
-        b += (b"X" if last != b"X" else b"Y")
+        # appended bytes alternate between visible garbage and pure whitespace (an editor's final newline)
+        if ws_append:
+            b += b"\n"
+        else:
+            b += (b"X" if last != b"X" else b"Y")
     return bytes(b)
 
 
@@ -113,9 +117,13 @@ def c17_history(bins, beh, hist, size, rng):
             return [j + k for k in (0, 63, 31, 16, 8, 40, 50)]
         def apply(file):
             p = {"src": src_path, "gen": gen_path, "lock": lock_path}[file]
-            data = render(pristine[file], dirty[file], hexpos() if file == "lock" else None)
+            data = render(pristine[file], dirty[file], hexpos() if file == "lock" else None, ws_append=(beh % 2 == 0))
+            st = os.stat(p)
             with open(p, "wb") as f:
                 f.write(data)
+            # an adversarial edit keeps the file's timestamps (cp -p, rsync -t, restore from backup)
+            if beh % 3 != 2:
+                os.utime(p, ns=(st.st_atime_ns, st.st_mtime_ns))
         def generate():
             with open(src_path, "rb") as f:
                 stdin = f.read()
@@ -215,6 +223,29 @@ def serialisations(cfg, rng):
         pad = max(1, (size - len(compact)) // ntok + 1)
         out.append((name, json.dumps(cfg, separators=("," + " " * pad, ":" + "\n" * min(pad, 3) + " " * max(0, pad - 3)))))
     out.append(("leading_trailing_ws", "\n" * 9000 + json.dumps(cfg) + " " * 9000 + "\n"))
+    # multi-byte characters placed so that they straddle I/O block boundaries (4 KiB multiples up to 256 KiB)
+    txt = json.dumps(cfg, ensure_ascii=False, separators=(",", ":"))
+    if any(ord(ch) > 127 for ch in txt):
+        raw = txt.encode("utf-8")
+        import re as _re
+        pieces, last, shift, boundary = [], 0, 0, 4096
+        for m in _re.finditer(rb'"(?:[^"\\\\]|\\\\.)*"', raw):
+            tok = m.group(0)
+            k = next((x for x in range(len(tok)) if tok[x] >= 0x80), None)
+            if k is None or boundary > 256 * 1024:
+                continue
+            cur = m.start() + shift + k            # where the first byte of the multi-byte character would land
+            while boundary - 1 < cur:
+                boundary *= 2
+            if boundary > 256 * 1024:
+                continue
+            pad = boundary - 1 - cur
+            pieces.append(raw[last:m.start()] + b" " * pad)
+            last = m.start()
+            shift += pad
+            boundary *= 2
+        pieces.append(raw[last:])
+        out.append(("utf8_on_block_boundaries", b"".join(pieces).decode("utf-8")))
     return out
 
 
@@ -249,6 +280,39 @@ def c18_value(bins, idx, targets, rng, extra=None):
                           "out": {"ok": True, "err": "", "groups": [sorted(runlib.P(t) for t in g) for g in first_out[1]["target_groups"]]},
                           "via": "cli_analyze"}
         return rec, groups_rec
+    finally:
+        fx.cleanup()
+
+
+def c18_generate(bins, idx, targets, rng):
+    """`config generate` reads a configuration on stdin (a pipe): every serialisation of the same value must produce
+    the same generated file, lockfile and output."""
+    fx = fixture.Fixture(bins, targets)
+    try:
+        fx.git_init()
+        cfg = fx.config()
+        cfg["source"] = {"path": "Monorail.src.json"}
+        with open(os.path.join(fx.repo, "Monorail.src.json"), "w") as f:
+            json.dump(cfg, f)
+        styles = []
+        for name, text in serialisations(cfg, rng):
+            for pth in (fx.cfg_path, os.path.join(fx.repo, "Monorail.lock")):
+                if os.path.exists(pth):
+                    os.remove(pth)
+            r = fx.monorail(["config", "generate"], stdin=text.encode("utf-8"))
+            parts = []
+            for pth in (fx.cfg_path, os.path.join(fx.repo, "Monorail.lock")):
+                parts.append(open(pth, "rb").read() if os.path.exists(pth) else b"<missing>")
+            o = r["out"]
+            if isinstance(o, dict):
+                o = dict(o); o.pop("timestamp", None)
+            r2 = fx.monorail(["analyze", "--target-groups"]) if r["rc"] == 0 else {"rc": 9, "out": None}
+            o2 = r2["out"]
+            if isinstance(o2, dict):
+                o2 = dict(o2); o2.pop("timestamp", None)
+            h = hashlib.sha256(b"\0".join(parts) + json.dumps([o, o2], sort_keys=True).encode()).hexdigest()[:20]
+            styles.append({"style": "generate<" + name, "size": len(text), "rc": max(abs(r["rc"] or 0), abs(r2["rc"] or 0)), "digest": h})
+        return {"ev": "c18", "value": idx, "ntargets": len(targets), "styles": styles}, None
     finally:
         fx.cleanup()
 
@@ -304,7 +368,8 @@ def run(pid, tier):
     else:
         values = []
         small = [[{"path": "app"}, {"path": "app2", "uses": ["app"]}, {"path": "app-web", "uses": ["app/src.txt"], "ignores": ["app/README.md"]}],
-                 [{"path": "a"}, {"path": "a/b"}, {"path": "c", "uses": ["a/b"]}]]
+                 [{"path": "a"}, {"path": "a/b"}, {"path": "c", "uses": ["a/b"]}],
+                 [{"path": "svc/é%02d" % i, "ignores": ["svc/é%02d/dócs/%s" % (i, "ü" * 20)]} for i in range(64)]]
         for t in small:
             values.append((t, None))
         values.append((make_targets("medium", rng), {"max_retained_runs": 3, "sequences": {"all": ["build", "test"]}}))
@@ -322,9 +387,13 @@ def run(pid, tier):
                     t["ignores"] = [nm + "/docs"]
                 ts.append(t)
             values.append((ts, None))
+        gen_values = [values[0][0], values[2][0], make_targets("medium", rng)] + ([make_targets("large", rng)] if tier == "thorough" else [])
         def one(iv):
             i, (ts, extra) = iv
+            if extra == "generate":
+                return c18_generate(bins, i, ts, random.Random(chk.seed * 13 + i))
             return c18_value(bins, i, ts, random.Random(chk.seed * 13 + i), extra)
+        values += [(g, "generate") for g in gen_values]
         with ThreadPoolExecutor(max_workers=8) as ex:
             res = list(ex.map(one, enumerate(values)))
         recs = [[{"ev": "reset", "beh": i}, r[0]] for i, r in enumerate(res)]
